@@ -1,8 +1,92 @@
-(* C16: placeholder until the Reflect proofs are merged; a concrete run of the model. *)
-From BCL Require Import Model.Reflect.
+(* C16: Same input, same outcome.
+
+   In the model every entry point is a Gallina function, so "repeating a call gives the same outcome" holds by
+   construction; what the theorems state is that the three sources of nondeterminism in the Go code cannot
+   reach the outcome:
+     map iteration order - Bind visits the keys in sorted order, so its result is the same for every order in
+                           which the (distinct) keys of a block are enumerated, at every nesting level
+                           (C16_bind_order_deep); the parser's identRefs map is used for lookup only (the
+                           constant pool order is that of first use: Model/Parser.v has no map at all, and the
+                           harness compares dumps byte for byte);
+     goroutine schedule  - ParseFile's outcome is the same in every schedule of its three goroutines
+                           (C16_schedule_independent = ProtoProofs.C11_result_schedule_independent), and the
+                           chunking of the input does not change the compiled program (C16_chunking_irrelevant);
+     earlier calls       - no package-level variable is assigned after init and the execution side never
+                           assigns through a Prog (tables regenerated from /repo by tools/gentables on every
+                           run: C16_no_global_state, C16_prog_readonly).
+   The harness repeats parse / execute / unmarshal in one process and across processes with different
+   GOMAXPROCS and hash seeds and compares dumps, output, diagnostics, blocks, bindings, targets and errors. *)
+From Coq Require Import List Lia Permutation String.
+From BCL Require Import Model.Api Proofs.ParserInvProofs Model.Proto Proofs.ProtoProofs Model.Reflect Proofs.ReflectProofs.
+From BCL Require Gen.GenTables Spec.Pinned Proofs.TieGlobals.
+Open Scope N_scope.
+
+(* the order in which Bind visits the keys is a function of the key set *)
+Theorem C16_sorted_canonical : forall l1 l2,
+  Permutation l1 l2 -> NoDup (map fst l1) -> sorted_fields l1 = sorted_fields l2.
+Proof. first [exact ReflectProofs.C16_sorted_canonical | apply ReflectProofs.C16_sorted_canonical]. Qed.
+Print Assumptions C16_sorted_canonical.
+
+Theorem C16_bind_order : forall tg t n l1 l2,
+  Permutation l1 l2 -> NoDup (map fst l1) ->
+  bind tg (BdStruct (VBlock t n l1)) = bind tg (BdStruct (VBlock t n l2)).
+Proof. first [exact ReflectProofs.C16_bind_order | apply ReflectProofs.C16_bind_order]. Qed.
+Print Assumptions C16_bind_order.
+
+(* at every nesting level *)
+Theorem C16_bind_order_deep : forall tg b1 b2, veq b1 b2 -> bind tg (BdStruct b1) = bind tg (BdStruct b2).
+Proof. first [exact ReflectProofs.C16_bind_order_deep | apply ReflectProofs.C16_bind_order_deep]. Qed.
+Print Assumptions C16_bind_order_deep.
+
+Theorem C16_bind_order_deep_slice : forall tg l1 l2, Forall2 veq l1 l2 ->
+  bind tg (BdSlice l1) = bind tg (BdSlice l2).
+Proof. first [exact ReflectProofs.C16_bind_order_deep_slice | apply ReflectProofs.C16_bind_order_deep_slice]. Qed.
+Print Assumptions C16_bind_order_deep_slice.
+
+(* with several faulty fields the same one is reported: the first in sorted key order *)
+Theorem C16_errors_first : forall tn fs v0 bt bn kvs pre k x post st1 st' e,
+  (tn = [] \/ unsnake_eq tn bt = true) ->
+  name_step R63 tn fs v0 bn = inr st1 ->
+  sorted_fields kvs = pre ++ (k, x) :: post ->
+  run_fields R63 tn fs pre st1 = inr st' ->
+  set_field_ R63 tn fs k x false st' = inl (inl e) ->
+  bind (TgtPtr (TStruct tn fs) v0) (BdStruct (VBlock bt bn kvs)) = BErr e.
+Proof. first [exact ReflectProofs.C15_errors_first | apply ReflectProofs.C15_errors_first]. Qed.
+Print Assumptions C16_errors_first.
+
+(* ParseFile: every complete schedule gives the same outcome *)
+Local Open Scope nat_scope.
+Theorem C16_schedule_independent : forall sc plan fin syn nd sched1 sched2,
+  let s0 := init sc plan fin syn nd in
+  final (exec s0 sched1) = true -> final (exec s0 sched2) = true ->
+  result (exec s0 sched1) = result (exec s0 sched2) /\
+  reads (exec s0 sched1) = reads (exec s0 sched2) /\
+  closes (exec s0 sched1) = closes (exec s0 sched2).
+Proof. first [exact ProtoProofs.C11_result_schedule_independent | apply ProtoProofs.C11_result_schedule_independent]. Qed.
+Local Close Scope nat_scope.
+Print Assumptions C16_schedule_independent.
+
+(* the compiled program does not depend on how the input was cut into reads *)
+Theorem C16_chunking_irrelevant : forall name cs,
+  pr_ok (parse_chunks name cs) = true ->
+  pr_oof (parse_chunks name cs) = false -> pr_panic (parse_chunks name cs) = false ->
+  pr_prog (parse_chunks name cs) = pr_prog (parse_whole name (concat cs)).
+Proof. first [exact ParserInvProofs.C07_prog_equal | apply ParserInvProofs.C07_prog_equal]. Qed.
+Print Assumptions C16_chunking_irrelevant.
+
+(* no state survives a call: tables regenerated from the source on every run *)
+Theorem C16_no_global_state :
+  forallb (fun p => negb (snd p)) GenTables.globals_written_after_init = true.
+Proof. rewrite TieGlobals.tie_globals. exact TieGlobals.no_global_written. Qed.
+Print Assumptions C16_no_global_state.
+
+Theorem C16_prog_readonly : GenTables.prog_writes_in_execution = [].
+Proof. rewrite TieGlobals.tie_prog_readonly. exact TieGlobals.prog_readonly_in_execution. Qed.
+Print Assumptions C16_prog_readonly.
+
+(* non-vacuity: two enumerations of one block *)
 Example C16_example :
-  bind (TgtPtr (TStruct [] [Field (bs "Name") true false [] TString; Field (bs "Port") true false [] TInt]) GZero)
-       (BdStruct (VBlock (bs "t") (bs "n") [(bs "port", VInt 5)]))
-  = BOk (GPtrTo (GStruct [GVal (VStr (bs "n")); GVal (VInt 5)])).
+  let ty := TStruct [] [Field (bs "Name") true false [] TString; Field (bs "Port") true false [] TInt; Field (bs "Host") true false [] TString] in
+  bind (TgtPtr ty GZero) (BdStruct (VBlock (bs "t") (bs "n") [(bs "port", VInt 5); (bs "host", VStr (bs "h"))]))
+  = bind (TgtPtr ty GZero) (BdStruct (VBlock (bs "t") (bs "n") [(bs "host", VStr (bs "h")); (bs "port", VInt 5)])).
 Proof. vm_compute. reflexivity. Qed.
-Print Assumptions C16_example.
